@@ -183,6 +183,11 @@ var cfgKeys = []string{"name", "email", "editor"}
 
 func (g *G) configValue() string {
 	words := []string{"v", "a=b", "=", "x=y=z", "[sec]", "]", "[", "#c", "\"q\"", "'s'", "é", "日本", "a", "key = val", "1", "a.b", ";", "\\", "%s", "$HOME", "~", "<x>"}
+	if g.Chance(6, "longValue") {
+		// a long value: the config line crosses internal buffer sizes (4096, 8192)
+		n := g.Pick2([]int{4080, 4087, 4088, 4089, 4096, 4100, 5000, 8185, 8192, 9000, 300, 1000}, "valueLen")
+		return strings.Repeat("v", n-4) + " a=b"
+	}
 	n := g.Int(1, 3, "nwords")
 	var parts []string
 	for i := 0; i < n; i++ {
